@@ -5,6 +5,7 @@ From Settlus Require Import Base.Prelude Base.Hex Base.Dec Settlement.Model Orac
 Record acase := mkACase {
   ac_o : ostate; ac_h : Z; ac_msgs : list tmsg; ac_fee_payer : Z; ac_signers : list Z;
   ac_offered : list (bytes * Z); ac_fp : feeparams; ac_gas : Z;
+  ac_expect_fail : bool;     (* the generator made the (admitted) messages fail in their handler: not an admin *)
   ac_class : tclass; ac_oracle_changed : bool; ac_settle_changed : bool; ac_val_added : bool;
   ac_payer_delta : list (bytes * Z); ac_coll_delta : list (bytes * Z); ac_pool_delta : list (bytes * Z);
   ac_gas_used : Z }.
@@ -22,13 +23,13 @@ Definition ac_tx (c : acase) : txctx :=
 (* every message of a generated case is built so that its handler succeeds: admitted <-> code 0 *)
 Definition ante_cmp (c : acase) : list Z :=
   let adm := admits (ac_o c) (ac_h c) (ac_tx c) in
-  (if tclass_eqb (ac_class c) (if adm then COk else CRejected) then [] else [1])
+  (if tclass_eqb (ac_class c) (if adm && negb (ac_expect_fail c) then COk else CRejected) then [] else [1])
   ++ (if adm && is_settlement_tx (ac_msgs c) then
         match charge c with
         | Some (d, fee) =>
             let '(coll, pool) := split_fee (fp_q (ac_fp c)) fee in
             (if (coin_get (ac_coll_delta c) d =? coll) && (coin_get (ac_pool_delta c) d =? pool) then [] else [6])
-            ++ (if ac_gas_used c =? gas_cost (smsgs_of (ac_msgs c)) then [] else [8])
+            ++ (if negb (tclass_eqb (ac_class c) COk) || (ac_gas_used c =? gas_cost (smsgs_of (ac_msgs c))) then [] else [8])
         | None => []
         end
       else [])
@@ -49,6 +50,18 @@ Definition authorised_b (o : ostate) (signers : list Z) (m : omsg) : bool :=
     6 a pure settlement transaction was accepted but the payer was not charged the fixed fee in the first
       covered denomination, split floor(f(1-q)) / floor(f q) between collector and oracle pool
     7 ... or was charged although it was rejected by the fee rule      8 gas used <> fixed gas cost *)
+Definition fee_charged_ok (c : acase) : list Z :=
+  match charge c with
+  | Some (d, fee) =>
+      let '(coll, pool) := split_fee (fp_q (ac_fp c)) fee in
+      if (coin_get (ac_coll_delta c) d =? coll) && (coin_get (ac_pool_delta c) d =? pool)
+         && (coin_get (ac_payer_delta c) d =? - (coll + pool))
+         && forallb (fun x : bytes * Z => bytes_eqb (fst x) d || (snd x =? 0)) (ac_coll_delta c)
+         && forallb (fun x : bytes * Z => bytes_eqb (fst x) d || (snd x =? 0)) (ac_pool_delta c)
+      then (if negb (tclass_eqb (ac_class c) COk) || (ac_gas_used c =? gas_cost (smsgs_of (ac_msgs c))) then [] else [8]) else [6]
+  | None => [6]
+  end.
+
 Definition ante_prop (c : acase) : list Z :=
   match ac_class c with
   | COk =>
@@ -56,23 +69,12 @@ Definition ante_prop (c : acase) : list Z :=
       (if forallb (fun x => match x with LOracle m => authorised_b (ac_o c) (ac_signers c) m | _ => true end) ls then [] else [3])
       ++ (if existsb (fun x => url_eqb (url_of x) UCreateValidator) ls && negb (ac_h c =? 0) then [4] else [])
       ++ (if existsb (fun x => is_settlement_url (url_of x)) ls && negb (is_settlement_tx (ac_msgs c)) then [5] else [])
-      ++ (if is_settlement_tx (ac_msgs c) then
-            match charge c with
-            | Some (d, fee) =>
-                let '(coll, pool) := split_fee (fp_q (ac_fp c)) fee in
-                if (coin_get (ac_coll_delta c) d =? coll) && (coin_get (ac_pool_delta c) d =? pool)
-                   && (coin_get (ac_payer_delta c) d =? - (coll + pool))
-                   && forallb (fun x : bytes * Z => bytes_eqb (fst x) d || (snd x =? 0)) (ac_coll_delta c)
-                   && forallb (fun x : bytes * Z => bytes_eqb (fst x) d || (snd x =? 0)) (ac_pool_delta c)
-                then (if ac_gas_used c =? gas_cost (smsgs_of (ac_msgs c)) then [] else [8]) else [6]
-            | None => [6]
-            end
-          else [])
+      ++ (if is_settlement_tx (ac_msgs c) then fee_charged_ok c else [])
   | _ =>
       if is_settlement_tx (ac_msgs c) then
         match charge c with
         | None => (match ac_coll_delta c, ac_pool_delta c with [], [] => [] | _, _ => [7] end)
-        | Some _ => []
+        | Some _ => if ac_expect_fail c then fee_charged_ok c else []   (* charged although the messages failed *)
         end
       else []
   end.
